@@ -16,16 +16,23 @@ for m in sorted(glob.glob('seeded/*/meta.json')):
     d = json.load(open(m))
     cw = d.get('check_with', [d['property']])
     jobs.append((os.path.join(os.path.dirname(m), 'patch.diff'), ','.join(cw if os.environ.get('ALL') else cw[:1])))
-bad = 0
-for patch, props in jobs:
-    if not re.search(pat, patch):
-        continue
+from concurrent.futures import ThreadPoolExecutor
+par = int(os.environ.get('PAR', '2'))
+jobs = [(p, pr) for p, pr in jobs if re.search(pat, p)]
+
+
+def one(job):
+    patch, props = job
     p = subprocess.run(['tools/trymut.sh', patch, props, os.environ.get('TIER', 'quick')], stdout=subprocess.PIPE, stderr=subprocess.STDOUT)
     out = p.stdout.decode()
     caught = re.findall(r'-> (C\d+) exit=1', out)
-    status = 'CAUGHT by ' + ','.join(caught) if caught else 'MISSED'
-    if not caught:
-        bad += 1
+    status = 'CAUGHT by ' + ','.join(caught) if caught else 'MISSED (' + ' '.join(re.findall(r'exit=\d+', out)) + ')'
     print('%-45s %-12s %s' % (patch, props, status), flush=True)
+    return 0 if caught else 1
+
+
+with ThreadPoolExecutor(max_workers=par) as ex:
+    bad = sum(ex.map(one, jobs))
+print('selftest: %d planted changes, %d missed' % (len(jobs), bad))
 sys.exit(1 if bad else 0)
 PY
